@@ -102,30 +102,50 @@ func (s *Schema) RemoveRel(typ string, rel string) {
 // The types must already exist in the schema.
 func (s *Schema) AddTwoWayRel(rel Rel) error {
 	rel1 := rel.Normalize()
-	rel2 := rel.Invert()
-	found1 := false
-	found2 := false
+	rel2 := rel1.Invert()
+
+	var typ1, typ2 *Type
 
 	for i := range s.Types {
 		if s.Types[i].Name == rel1.FromType {
-			found1 = true
+			typ1 = &s.Types[i]
+		}
 
-			err := s.Types[i].AddRel(rel1)
-			if err != nil {
-				return err
-			}
-		} else if s.Types[i].Name == rel2.FromType {
-			found2 = true
-
-			err := s.Types[i].AddRel(rel2)
-			if err != nil {
-				return err
-			}
+		if s.Types[i].Name == rel2.FromType {
+			typ2 = &s.Types[i]
 		}
 	}
 
-	if found1 && found2 {
+	if typ1 != nil {
+		err := typ1.AddRel(rel1)
+		if err != nil {
+			return err
+		}
+	}
+
+	if typ2 != nil {
+		err := typ2.AddRel(rel2)
+		if err != nil {
+			// Nothing is added when one of the sides is refused.
+			if typ1 != nil {
+				typ1.RemoveRel(rel1.FromName)
+			}
+
+			return err
+		}
+	}
+
+	if typ1 != nil && typ2 != nil {
 		return nil
+	}
+
+	// Nothing is added when one of the types is missing.
+	if typ1 != nil {
+		typ1.RemoveRel(rel1.FromName)
+	}
+
+	if typ2 != nil {
+		typ2.RemoveRel(rel2.FromName)
 	}
 
 	return fmt.Errorf(
